@@ -581,6 +581,20 @@ def run(tier, seed):
                     "extra_signer": [zstr_value(model, Vb["c.metadata.signers[%d].party_id" % NS]).encode().hex(), str(model.eval(Vb["c.metadata.signers[%d].stake" % NS], model_completion=True))]}
             ob.counterexample = {"field": "metadata.signers", "spec": spec}
             failures.append((ob, spec))
+        # two signers sharing one party id (a list that is not strictly increasing by id): the stake of the first, shadowed in any
+        # map keyed by party id, must still be committed to.  Runs on the longer list of the length obligation above.
+        sb, outs, axioms, phi1 = sb_b, outs_b, axioms_b, phi_b
+        V = sb.vars
+        base = [phi1] + axioms + list(sb.constraints)
+        NB = NS + 1
+        if NB >= 2:
+            p0, p1 = V["c.metadata.signers[0].party_id"], V["c.metadata.signers[%d].party_id" % (NB - 1)]
+            for fld in ("stake", ):
+                for idx in (0, NB - 1):
+                    nm = "c.metadata.signers[%d].%s" % (idx, fld)
+                    x2 = fresh(V[nm], nm)
+                    query("c04_signers_duplicate_id_%s_%d_of_%d" % (fld, idx, NB), "two certificates whose %d signers include two entries with the same party id and that differ only in the %s of entry %d have different hashes" % (NB, fld, idx),
+                          [(V[nm], x2)], V[nm] != x2, [p0 == p1], role="c04-signers-duplicate-id-%s" % fld, field=nm, replay_builder=simple_spec(nm, "int"))
         rep.functions += sorted(set("%s -> %s" % (a, b) for a, b in ctx.I.calls_seen.items() if b.startswith("mir:")))
     except Unencodable as e:
         rep.inconcl("unencodable: %s" % e)
